@@ -14,7 +14,7 @@ fn run_case(line: &str) -> String {
     let toks: Vec<&str> = line.split(' ').collect();
     let r = std::panic::catch_unwind(|| match toks[0] {
         t if t.starts_with("txt_") => k2::run_txt(&toks),
-        "dec" => k1::run(&toks),
+        "dec" | "enc" | "encdec" => k1::run(&toks),
         _ => "BADCASE".to_string(),
     });
     match r {
